@@ -4,7 +4,7 @@ use crate::engine::*;
 use crate::model::bspline::*;
 use crate::util::*;
 use proptest::prelude::*;
-use rateslib::splines::{bspldnev_single_f64, bsplev_single_f64};
+use rateslib::splines::{bspldnev_single_f64, bsplev_single_f64, PPSpline};
 use serde::{Deserialize, Serialize};
 
 #[derive(Clone, Debug, Serialize, Deserialize)]
@@ -203,6 +203,44 @@ impl Property for C14 {
                 }
             }
         }
+        // the vectorised entry points of the spline object (what Python's bspldnev / bsplmatrix
+        // call) must return, point for point, what the scalar functions return
+        let pts: Vec<f64> = c.xs.iter().map(|xs| resolve_x(&t, xs)).filter(|x| span_of(&t, *x).is_some()).collect();
+        if !pts.is_empty() {
+            let (left_n, right_n) = (pts.len() % (k + 1), (pts.len() + n) % (k + 1));
+            let r = catch(|| {
+                let sp = PPSpline::<f64>::new(k, t.clone(), None);
+                let vecs: Vec<Vec<Vec<f64>>> = (0..n).map(|i| (0..=k).map(|m| sp.bspldnev(&pts, &i, &m)).collect()).collect();
+                (vecs, sp.bsplmatrix(&pts, left_n, right_n))
+            });
+            match r {
+                Ok((vecs, mat)) => {
+                    for i in 0..n {
+                        for m in 0..=k {
+                            for (q, x) in pts.iter().enumerate() {
+                                let scalar = bspldnev_single_f64(x, i, &k, &t, m, None);
+                                if vecs[i][m].len() != pts.len() || vecs[i][m][q].to_bits() != scalar.to_bits() {
+                                    v.fail("vectorised basis evaluation differs from the scalar function", format!("k={} t={:?} i={} m={} x={:?}: PPSpline::bspldnev {:?}, scalar {:e}", k, t, i, m, x, vecs[i][m].get(q), scalar));
+                                    return v;
+                                }
+                            }
+                        }
+                        for (q, x) in pts.iter().enumerate() {
+                            let m = if q == pts.len() - 1 { right_n } else if q == 0 { left_n } else { 0 };
+                            let scalar = bspldnev_single_f64(x, i, &k, &t, m, None);
+                            if mat.dim() != (pts.len(), n) || mat[[q, i]].to_bits() != scalar.to_bits() {
+                                v.fail("collocation matrix entry differs from the scalar basis function", format!("k={} t={:?} sites {:?} end orders ({}, {}): entry [{}, {}] = {:?}, scalar {:e}", k, t, pts, left_n, right_n, q, i, mat.get([q, i]), scalar));
+                                return v;
+                            }
+                        }
+                    }
+                }
+                Err(p) => {
+                    v.fail(format!("vectorised basis evaluation | panic | {}", p.site()), format!("k={} t={:?} x={:?}: {}", k, t, pts, p.message));
+                    return v;
+                }
+            }
+        }
         v
     }
 
@@ -211,7 +249,7 @@ impl Property for C14 {
     }
 
     fn rule(&self) -> String {
-        "random (order k in 1..6, knot sequence with k-fold end knots and 0-8 interior knots on a quarter grid with multiplicity <= max(1, k-1) and spans 0.25..4, 1-5 evaluation points drawn exactly on knots, at both end points, at span midpoints, at the doubles adjacent to knots, and uniformly); for every point ALL basis indices i and ALL derivative orders m = 0..k+1 are evaluated. Oracle: Cox-de Boor carried out on polynomial coefficient vectors per knot span (right limit; left limit at the right end point): equality within 1e-10 x the polynomial's size on the span, non-negativity, exact zero outside [t_i, t_(i+k)], sum_i B_i = 1, sum_i B_i^(m) = 0, exact zero for m >= k. Non-trivial: k >= 3 and the point is an interior knot or the right end point.".into()
+        "random (order k in 1..6, knot sequence with k-fold end knots and 0-8 interior knots on a quarter grid with multiplicity <= max(1, k-1) and spans 0.25..4, 1-5 evaluation points drawn exactly on knots, at both end points, at span midpoints, at the doubles adjacent to knots, and uniformly); for every point ALL basis indices i and ALL derivative orders m = 0..k+1 are evaluated. Oracle: Cox-de Boor carried out on polynomial coefficient vectors per knot span (right limit; left limit at the right end point): equality within 1e-10 x the polynomial's size on the span, non-negativity, exact zero outside [t_i, t_(i+k)], sum_i B_i = 1, sum_i B_i^(m) = 0, exact zero for m >= k; the vectorised entry points PPSpline::bspldnev and ::bsplmatrix (all i, m; end-row orders varied) agree bit-for-bit with the scalar functions. Non-trivial: k >= 3 and the point is an interior knot or the right end point.".into()
     }
 
     fn floors(&self, tier: Tier) -> Vec<Floor> {
